@@ -332,9 +332,75 @@ fn run_miri(rep: &mut Rep) {
     }
 }
 
+/// One large packet handed over in thousands of tiny reads that are all ready at once: the whole packet is assembled within a
+/// single poll of connect() / authorize() / run(). Depth of the call stack must not grow with the number of reads - in an
+/// unoptimised build least of all, where no tail call is ever eliminated (profile `dev`, opt-level 0). A stack overflow kills
+/// the worker process; the driver names the case.
+fn deep_reads(rep: &mut Rep) {
+    let sizes: &[usize] = if rep.quick() { &[1500, 20_000, 300_000] } else { &[1500, 20_000, 300_000, 2_000_000] };
+    rep.note(&format!("deep reads: one CONNACK / PUBLISH of {:?} bytes delivered in 1- and 2-byte reads that are all ready at once, in each phase", sizes));
+    let mut idx = 60_000_000u64;
+    for phase in PHASES {
+        for &size in sizes {
+            for cap in [1usize, 2] {
+                let id = format!("deep:{phase:?}:{size}:{cap}");
+                idx += 1;
+                if !rep.take(idx, &id) {
+                    continue;
+                }
+                let mut su = setup(rep.seed, phase);
+                su.sim.log_enabled = false;
+                let pkt = match phase {
+                    Phase::Running => SPacket::Publish(rc::Publish { dup: false, qos: 0, retain: false, topic: "a/deep".into(), id: None, props: vec![Prop::var(11, 1)], payload: vec![0x61; size] }),
+                    _ => {
+                        let mut props = Vec::new();
+                        let mut left = size;
+                        while left > 0 {
+                            let n = left.min(60_000);
+                            props.push(Prop::pair("k", &"v".repeat(n)));
+                            left -= n;
+                        }
+                        SPacket::Connack { session_present: false, reason: 0, props }
+                    }
+                };
+                su.sim.reader.0.borrow_mut().default_cap = cap;
+                su.sim.feed_packet(&pkt);
+                su.sim.settle();
+                rep.add("evaluations", 1);
+                rep.add("deep_read_cases", 1);
+                rep.max("max_transport_calls_in_one_poll", su.sim.max_io_calls_in_poll as i64);
+                rep.distinct(&("deep", phase, size, cap));
+                for p in su.sim.panics.clone() {
+                    rep.violation(&format!("C04/panic/{p}/phase={phase:?}"), &id, &format!("panic while a {size}-byte packet arrived in {cap}-byte reads: {p}"));
+                }
+                let ok = match phase {
+                    Phase::Running => {
+                        let n = su.stream.map(|st| {
+                            su.sim.drain_stream(st);
+                            su.sim.streams[st].items.len()
+                        });
+                        n == Some(1) && su.sim.run_result().is_none()
+                    }
+                    _ => matches!(su.sim.last_ctx_result(su.call), Some(CtxOut::Conn(ConnOut::Connack(_)))),
+                };
+                if !ok && su.sim.panics.is_empty() {
+                    rep.violation(&format!("C04/wedge/large-packet-in-tiny-reads/phase={phase:?}"), &id, &format!("a well-formed {size}-byte packet delivered in {cap}-byte reads was not handed on: {}() = {:?}, unread {}", su.call, su.sim.last_ctx_result(su.call).map(|c| brief_ctx(&c)), su.sim.unread()));
+                } else if ok {
+                    rep.sample(|| format!("{id}: assembled within {} transport calls in one poll", su.sim.max_io_calls_in_poll));
+                }
+            }
+        }
+    }
+}
+
 pub fn run(rep: &mut Rep) {
     if rep.profile == "miri" {
         return run_miri(rep);
+    }
+    deep_reads(rep);
+    if rep.profile == "dev" {
+        // the unoptimised build exists for what only it can show (stack depth); the enumerations run in the other builds
+        return;
     }
     let mut idx = 0u64;
     // (a) all byte strings up to a bound over a boundary alphabet
